@@ -1,4 +1,5 @@
 import FCA.Proofs.LatticeSpec
+import FCA.Proofs.OrderSpec
 import FCA.Proofs.LexOrder
 /-
 C06 — Canonical order: shortlex iteration, index/dindex ranks, bottom first, top last.
@@ -8,17 +9,9 @@ C06 — Canonical order: shortlex iteration, index/dindex ranks, bottom first, t
 namespace FCA
 open LexAux
 
-/-- the documented short-lexicographic order on object sets of a context with `w` objects:
-fewer objects first; ties: the set containing the first (by position in the context) object on which
-the two differ comes first -/
-def shortlexLt (w a b : Nat) : Prop :=
-  card w a < card w b ∨
-    (card w a = card w b ∧ ∃ i, i ∈ᵇ a ∧ ¬ i ∈ᵇ b ∧ ∀ k, k < i → (k ∈ᵇ a ↔ k ∈ᵇ b))
-
-/-- long-lexicographic order: more objects first, same tie-break -/
-def longlexLt (w a b : Nat) : Prop :=
-  card w b < card w a ∨
-    (card w a = card w b ∧ ∃ i, i ∈ᵇ a ∧ ¬ i ∈ᵇ b ∧ ∀ k, k < i → (k ∈ᵇ a ↔ k ∈ᵇ b))
+-- `shortlexLt` / `longlexLt` (the documented orders: fewer resp. more objects first; ties: the set containing
+-- the first object, by position in the context, on which the two differ comes first) are defined in
+-- FCA/Proofs/OrderSpec.lean
 
 /-- the numeric sort key `(count, reinverted)` of the code realises the documented shortlex order -/
 theorem C06_key_is_shortlex {w a b : Nat} (ha : Bounded w a) (hb : Bounded w b) :
